@@ -836,7 +836,7 @@ class SymSeq:
 
     def __init__(self, dim, elem_or_arr, guard=None):
         self.dim = dim
-        if isinstance(elem_or_arr, SymArr):
+        if isinstance(elem_or_arr, SymArr) and elem_or_arr.axes and elem_or_arr.axes[0] is dim:
             self.arr = elem_or_arr
             self.elem = elem_or_arr.generic_row()
         else:
@@ -846,6 +846,14 @@ class SymSeq:
 
     def __repr__(self):
         return f"SymSeq({self.dim}, {self.elem!r})"
+
+    def __getitem__(self, i):
+        if isinstance(i, Sym) and i.e == self.dim.k:
+            return self.elem
+        raise paths.OutOfReach(f"index {i!r} into a sequence of symbolic length")
+
+    def __iter__(self):
+        raise paths.OutOfReach("iteration over a symbolic sequence outside an instrumented for-loop")
 
 
 class GenericLoop:
